@@ -149,6 +149,8 @@ def specs_for(chk, crate, selections, timeout, extra=None, cbmc_args=None):
         for n in harnesses_in(fn, prefix):
             if chk.tier == "quick" and THOROUGH_ONLY.search(n):
                 continue
+            if n.endswith("_x") and not chk.only:
+                continue  # kept for the record: does not finish within the thorough cap (DESIGN 9.2)
             if chk.only and not any(o in n for o in chk.only):
                 continue
             rel = "src/" + module_files()[fn]
